@@ -61,7 +61,8 @@ def cases(draw):
     default = draw(st.sampled_from([0, 0, 0, 2]))
     k = draw(st.sampled_from([2, 2, 2, 3, 4]))
     fibers = [draw(fiber_desc(shape, nested, default)) for _ in range(k)]
-    return {"shape": shape, "nested": nested, "default": default, "fibers": fibers}
+    return {"shape": shape, "nested": nested, "default": default, "fibers": fibers,
+            "prior": draw(st.integers(0, 15))}
 
 
 def enum_small(tier):
@@ -227,6 +228,12 @@ def tup(p, where, n):
 def check(case, rec):
     shape, nested, default = case["shape"], case["nested"], case["default"]
     ops = [Operand(d, shape, nested, default, i) for i, d in enumerate(case["fibers"])]
+    # earlier, unrelated public calls may have left a saved position on an operand: the operators
+    # must not depend on it
+    for i, o in enumerate(ops):
+        if case.get("prior", 0) >> i & 1 and o.fiber.coords:
+            o.fiber.getPayload(o.fiber.coords[-1], start_pos=0)
+            o.fiber.getPosition(o.fiber.coords[-1], start_pos=0)
     a, b = ops[0], ops[1]
     A = [c for c, _ in a.pres]
     B = [c for c, _ in b.pres]
@@ -498,6 +505,18 @@ def _pin_p20():
     return None if got == [] else f"empty & b yields {got}"
 
 
+def _pin_p31():
+    f = Fiber([1, 5, 7], [1, 2, 3], shape=9)
+    a = Fiber([1, 5], [4, 5], shape=9)
+    f.getPayload(7, start_pos=0)
+    try:
+        got = [c for c, _ in Fiber.intersection(a, f, style="leader-follower")]
+    except AssertionError:
+        return "leader-follower intersection raises AssertionError when the follower carries a saved position from an earlier getPayload(.., start_pos=..)"
+    return None if got == [1, 5] else f"leader-follower yields {got}"
+
+
 PINNED = {"P19-sub-drops-defaults-of-U-operand": _pin_p19,
+          "P31-leader-follower-stale-saved-pos": _pin_p31,
           "P20-and-empty-operand-tuple-coords": _pin_p20,
           "P1-union-default-added-to-rank": _pin_p1}
